@@ -1,6 +1,6 @@
 """C06 - One-at-a-time upstream connections are reused only when clean (DESIGN.md section 4, C06)."""
 import json
-import vf
+import vf, xportfam
 
 
 def keyfn(ev, inv):
@@ -25,6 +25,14 @@ def run(ctx):
         lines = open(t).read().splitlines()
         ctx.sample({"trace_excerpt": [json.loads(x) for x in lines[30:38]]})
         ctx.validate("ReuseTrace", t, keyfn, describe=describe, timeout=1800, require_events=5000)
+    # the step-level model (one action per critical section / channel operation) and its replay into the code
+    ctx.exhaustive("ReuseStep_MC", "ReuseStep_MC", timeout=900)
+    if not ctx.quick:
+        ctx.exhaustive("ReuseStep_MC", "ReuseStep_live", timeout=1800, workers=4)
+    b = vf.tlc("ReuseStep_MC", cfg="ReuseStep_bug_earlyidle", timeout=300)
+    if b.ok or b.violated != "Inv_C06_CleanIdleStrict":
+        raise vf.MachineryError("sensitivity run did not reject the connection that goes idle after a failed read")
+    xportfam.reuse_replay(ctx, drv, "C06")
     ctx.assumptions += [
         "the scripted server sends at most one reply per query (the property's premise)",
         "the package's own test knob testRespTimeout (150 ms) and a 25 ms idle timeout make time-out and idle-timer races frequent",
